@@ -16,7 +16,10 @@ PRIORS = {'none': (), 'success': (['valid'],), 'rejected@.5T': (['exc@.5T'],), '
           'drop+reconnect-refused': (dict(tx=['drop'] * 4, conn=['ok'] + ['refused'] * 4),),
           'drop+reconnect-unreachable': (dict(tx=['drop'] * 4, conn=['ok'] + ['unreachable'] * 4),),
           'drop+reconnect-hang': (dict(tx=['drop'] * 4, conn=['ok'] + ['hang'] * 4),),
-          'connect-unreachable': (dict(tx=['drop'] * 4, conn=['unreachable'] * 4),)}
+          'connect-unreachable': (dict(tx=['drop'] * 4, conn=['unreachable'] * 4),),
+          # the explored request is issued from the next event loop (successive asyncio.run() calls on a long-lived object)
+          'success+NEWLOOP': (['valid'], 'NEWLOOP'), 'exhausted+NEWLOOP': (['drop'] * 4, 'NEWLOOP'),
+          'rejected+NEWLOOP': (['exc2'], 'NEWLOOP'), 'NEWLOOP+success+NEWLOOP': ('NEWLOOP', ['valid'], 'NEWLOOP')}
 
 
 def prior_of(name):
@@ -219,7 +222,8 @@ def run(tier, seed, rep):
     for tr in ('udp', 'tcp'):
         for ka in (False, True):
             for prior in (PRIORS if tier == 'thorough' else ('success', 'rejected@.5T', 'late-answer', 'fragment+valid', 'timeout+rejected',
-                                                              'drop+reconnect-refused', 'drop+reconnect-unreachable', 'drop+reconnect-hang', 'connect-unreachable')):
+                                                              'drop+reconnect-refused', 'drop+reconnect-unreachable', 'drop+reconnect-hang', 'connect-unreachable',
+                                                              'success+NEWLOOP', 'exhausted+NEWLOOP', 'rejected+NEWLOOP', 'NEWLOOP+success+NEWLOOP')):
                 if prior == 'none' or (tr == 'udp' and 'connect' in prior):
                     continue
                 cfg = dict(transport=tr, ka=ka, T=1, R=1, cmd='read', prior=prior)
